@@ -9,53 +9,60 @@ import (
 var intEncs = []string{"I8", "I16", "I32", "I64"}
 
 // encoders whose values render unambiguously in String()
-var renderEncs = []string{"I8", "I16", "I32", "I64", "U16", "U32", "U64", "Int", "OptU16"}
+var renderEncs = []string{"I8", "I16", "I32", "I64", "U16", "U32", "U64", "Int", "OptU16", "StrictU32"}
 
 func TestC01(t *testing.T) {
-	runProp(t, "C01", checkC01, func(t *rapid.T) *Case {
-		return genTrieCase(t, trieGenOpt{})
-	})
-}
-func TestReplayC01(t *testing.T) { runReplay(t, "C01", checkC01) }
-
-func TestC02(t *testing.T) {
-	runProp(t, "C02", checkC02, func(t *rapid.T) *Case {
-		return genTrieCase(t, trieGenOpt{forceRuns: true, needVals: true})
-	})
-}
-func TestReplayC02(t *testing.T) { runReplay(t, "C02", checkC02) }
-
-func TestC03(t *testing.T) {
-	runProp(t, "C03", checkC03, func(t *rapid.T) *Case {
-		c := genTrieCase(t, trieGenOpt{complete: true})
-		genExtra(t, c)
+	runProp(t, "C01", liveCheck(checkC01), func(t *rapid.T) *Case {
+		c := genTrieCase(t, trieGenOpt{})
+		genEarlier(t, c)
 		return c
 	})
 }
-func TestReplayC03(t *testing.T) { runReplay(t, "C03", checkC03) }
+func TestReplayC01(t *testing.T) { runReplay(t, "C01", liveCheck(checkC01)) }
+
+func TestC02(t *testing.T) {
+	runProp(t, "C02", liveCheck(checkC02), func(t *rapid.T) *Case {
+		c := genTrieCase(t, trieGenOpt{forceRuns: true, needVals: true})
+		genEarlier(t, c)
+		return c
+	})
+}
+func TestReplayC02(t *testing.T) { runReplay(t, "C02", liveCheck(checkC02)) }
+
+func TestC03(t *testing.T) {
+	runProp(t, "C03", liveCheck(checkC03), func(t *rapid.T) *Case {
+		c := genTrieCase(t, trieGenOpt{complete: true})
+		genExtra(t, c)
+		genEarlier(t, c)
+		return c
+	})
+}
+func TestReplayC03(t *testing.T) { runReplay(t, "C03", liveCheck(checkC03)) }
 
 func TestC09(t *testing.T) {
-	runProp(t, "C09", checkC09, func(t *rapid.T) *Case {
+	runProp(t, "C09", liveCheck(checkC09), func(t *rapid.T) *Case {
 		c := genTrieCase(t, trieGenOpt{needVals: true})
 		if pickU(t, "legacy?", 6) == 0 {
 			forceLegacy(t, c)
 		}
+		genEarlier(t, c)
 		return c
 	})
 }
-func TestReplayC09(t *testing.T) { runReplay(t, "C09", checkC09) }
+func TestReplayC09(t *testing.T) { runReplay(t, "C09", liveCheck(checkC09)) }
 
 func TestC10(t *testing.T) {
-	runProp(t, "C10", checkC10, func(t *rapid.T) *Case {
+	runProp(t, "C10", liveCheck(checkC10), func(t *rapid.T) *Case {
 		c := genTrieCase(t, trieGenOpt{})
 		if pickU(t, "legacy?", 6) == 0 {
 			forceLegacy(t, c)
 		}
 		genExtra(t, c)
+		genEarlier(t, c)
 		return c
 	})
 }
-func TestReplayC10(t *testing.T) { runReplay(t, "C10", checkC10) }
+func TestReplayC10(t *testing.T) { runReplay(t, "C10", liveCheck(checkC10)) }
 
 func TestC13(t *testing.T) {
 	runProp(t, "C13", checkC13, func(t *rapid.T) *Case {
@@ -110,6 +117,17 @@ func TestC19(t *testing.T) {
 	})
 }
 func TestReplayC19(t *testing.T) { runReplay(t, "C19", checkC19) }
+
+// genEarlier sometimes adds a trie that is built before the case and kept alive.
+func genEarlier(t *rapid.T, c *Case) {
+	if pickU(t, "earlier?", 5) != 0 {
+		return
+	}
+	fams := []famWeight{{"K1", 3}, {"K2", 3}, {"K3", 2}, {"K5", 1}, {"K6", 1}, {"Krand", 1}, {"Kmix", 1}}
+	e := genTrieCase(t, trieGenOpt{fams: fams})
+	e.Load = ""
+	c.Earlier = e
+}
 
 // genLegacyLoad optionally turns the case into one loaded from a legacy stream,
 // adjusting it so that the layout can express it (DESIGN.md 3.5).
